@@ -19,6 +19,7 @@ from collections import Counter
 import networkx as nx
 import numpy as np
 
+from ..core import unlisted_violations  # noqa: E402
 from ..core import TRUSTED_COMMON, VERIF, Infra, build_and_audit, canon, finish, jhash, run_driver
 
 INF = 2 ** 40  # np.inf returned by geometric() is sent to the model as a gap beyond every index bound
@@ -926,7 +927,7 @@ def run(ctx):
         if involved:
             more = [c for c in more if c["f"] in involved]
         evaluate(ctx, more, [], [])
-        if not ctx.violations:
+        if not unlisted_violations(ctx):
             ctx.violation("model-tie", "unproven", {"broken": ctx.broken, "example": ctx.extra.get("disagreements", [])[:1]},
                           detail="; ".join(ctx.broken)[:500], kind="unproven", broken=ctx.broken)
     ctx.assumptions = [
